@@ -135,7 +135,7 @@ func pickGen3(c *hlib.Ctx) mesh3 {
 		b := pickGen3(c)
 		m := model3d.NewMesh()
 		m.AddMesh(a.m)
-		m.AddMesh(b.m.Translate(model3d.XYZ(32, 0, 0)))
+		m.AddMesh(b.m.Translate(model3d.X(math.Ceil(a.m.Max().X-b.m.Min().X) + 2)))
 		return mesh3{m, "multi(" + a.label + "+" + b.label + ")", a.exact && b.exact}
 	case 9:
 		// thin triangles: squash one axis by a power of two
@@ -281,7 +281,7 @@ func pickGen2(c *hlib.Ctx) mesh2 {
 		a, b := pickGen2(c), pickGen2(c)
 		m := model2d.NewMesh()
 		m.AddMesh(a.m)
-		m.AddMesh(b.m.Translate(model2d.X(64)))
+		m.AddMesh(b.m.Translate(model2d.X(math.Ceil(a.m.Max().X-b.m.Min().X) + 2)))
 		return mesh2{m, "multi(" + a.label + "+" + b.label + ")", a.exact && b.exact}
 	case 6:
 		p := []model2d.Coord{o, o.Add(model2d.XY(float64(1+c.Rng.Intn(4)), 0)), o.Add(model2d.XY(dy(c, 2, 1), float64(1+c.Rng.Intn(3))))}
